@@ -43,6 +43,7 @@ def target_plan(ns, base, tier):
           T.PyTarget(ns, base / "py_O", None, optimize=True, ndarray=True),     # python -O: the generated asserts do not exist
           T.CTarget(ns, base / "c_any", "any", False),
           T.CTarget(ns, base / "c_little_asserts", "little", True),
+          T.CTarget(ns, base / "c_ovr", "little", False, extra_nnvg=["--enable-override-variable-array-capacity"], tag="c/little+override-capacity"),
           T.CppTarget(ns, base / "cpp14_asserts", "c++14", asserts=True),
           T.CppTarget(ns, base / "cpp17", "c++17"),
           T.CppTarget(ns, base / "cpp17pmr", "c++17-pmr"),
@@ -51,7 +52,7 @@ def target_plan(ns, base, tier):
         ts += [T.CTarget(ns, base / "c_any_asserts", "any", True),
                T.CTarget(ns, base / "c_little", "little", False),
                T.CTarget(ns, base / "c_any_clang", "any", False, cc="clang", cflags=("-O0",)),   # clang -O1 needs minutes on the big shim
-               T.CTarget(ns, base / "c_ovr", "any", False, extra_nnvg=["--enable-override-variable-array-capacity"], tag="c/any+override-capacity"),
+               T.CTarget(ns, base / "c_ovr_any", "any", False, extra_nnvg=["--enable-override-variable-array-capacity"], tag="c/any+override-capacity"),
                T.CppTarget(ns, base / "cpp14", "c++14"),
                T.CppTarget(ns, base / "cpp17_clang", "c++17", cxx="clang++", cxxflags=("-O0",))]
     # big-endian output cannot run on this host: generated and compiled only
